@@ -65,6 +65,17 @@ pub fn describe(q: usize) -> Vec<Vec<&'static str>> {
     }
 }
 
+/// Captured variables carrying the names of the locals the query macros generate: inside the closure
+/// they must still be the caller's (macro hygiene), whatever the generated code declares around it.
+macro_rules! sentinels {
+    () => { ("SENT", "SENT", "SENT", "SENT", "SENT", "SENT", "SENT", "SENT") };
+}
+fn hyg_check(vals: [String; 8]) {
+    if vals.iter().any(|v| v != "\"SENT\"") {
+        reg::with(|r| r.anomalies.push(format!("hygiene_leak:{:?}", vals)));
+    }
+}
+
 macro_rules! qbody {
     ($cb:ident, $wref:expr, $e:ident, [$($d:ident)?], [$($r:ident),*], [$($x:ident),*]) => {{
         if reg::closure_tick() {
@@ -92,25 +103,32 @@ macro_rules! qloops {
     ($iter:ident, $iterb:ident, $iterd:ident, $find_a:ident, $find_d:ident, $findb_a:ident, $findb_d:ident,
      [$($params:tt)*], $e:ident, $d:tt, $r:tt, $x:tt) => {
         pub fn $iter(w: &mut VW, cb: Cb) {
-            ecs_iter!(w, |$($params)*| { qbody!(cb, None, $e, $d, $r, $x).step() });
+            let (entity, len, idx, version, slices, archetype, closure, found) = sentinels!();
+            ecs_iter!(w, |$($params)*| { hyg_check([format!("{:?}", entity), format!("{:?}", len), format!("{:?}", idx), format!("{:?}", version), format!("{:?}", slices), format!("{:?}", archetype), format!("{:?}", closure), format!("{:?}", found)]); qbody!(cb, None, $e, $d, $r, $x).step() });
         }
         pub fn $iterb(w: &VW, cb: Cb) {
-            ecs_iter_borrow!(w, |$($params)*| { qbody!(cb, Some(w), $e, $d, $r, $x).step() });
+            let (entity, len, idx, version, slices, archetype, closure, found) = sentinels!();
+            ecs_iter_borrow!(w, |$($params)*| { hyg_check([format!("{:?}", entity), format!("{:?}", len), format!("{:?}", idx), format!("{:?}", version), format!("{:?}", slices), format!("{:?}", archetype), format!("{:?}", closure), format!("{:?}", found)]); qbody!(cb, Some(w), $e, $d, $r, $x).step() });
         }
         pub fn $iterd(w: &mut VW, cb: Cb) {
-            ecs_iter_destroy!(w, |$($params)*| { qbody!(cb, None, $e, $d, $r, $x).step_destroy() });
+            let (entity, len, idx, version, slices, archetype, closure, found) = sentinels!();
+            ecs_iter_destroy!(w, |$($params)*| { hyg_check([format!("{:?}", entity), format!("{:?}", len), format!("{:?}", idx), format!("{:?}", version), format!("{:?}", slices), format!("{:?}", archetype), format!("{:?}", closure), format!("{:?}", found)]); qbody!(cb, None, $e, $d, $r, $x).step_destroy() });
         }
         pub fn $find_a(w: &mut VW, k: EntityAny, cb: Cb) -> Option<i64> {
-            ecs_find!(w, k, |$($params)*| -> i64 { qbody!(cb, None, $e, $d, $r, $x); 7 })
+            let (entity, len, idx, version, slices, archetype, closure, found) = sentinels!();
+            ecs_find!(w, k, |$($params)*| -> i64 { hyg_check([format!("{:?}", entity), format!("{:?}", len), format!("{:?}", idx), format!("{:?}", version), format!("{:?}", slices), format!("{:?}", archetype), format!("{:?}", closure), format!("{:?}", found)]); qbody!(cb, None, $e, $d, $r, $x); 7 })
         }
         pub fn $find_d(w: &mut VW, k: EntityDirectAny, cb: Cb) -> Option<i64> {
-            ecs_find!(w, k, |$($params)*| -> i64 { qbody!(cb, None, $e, $d, $r, $x); 7 })
+            let (entity, len, idx, version, slices, archetype, closure, found) = sentinels!();
+            ecs_find!(w, k, |$($params)*| -> i64 { hyg_check([format!("{:?}", entity), format!("{:?}", len), format!("{:?}", idx), format!("{:?}", version), format!("{:?}", slices), format!("{:?}", archetype), format!("{:?}", closure), format!("{:?}", found)]); qbody!(cb, None, $e, $d, $r, $x); 7 })
         }
         pub fn $findb_a(w: &VW, k: EntityAny, cb: Cb) -> Option<i64> {
-            ecs_find_borrow!(w, k, |$($params)*| -> i64 { qbody!(cb, Some(w), $e, $d, $r, $x); 7 })
+            let (entity, len, idx, version, slices, archetype, closure, found) = sentinels!();
+            ecs_find_borrow!(w, k, |$($params)*| -> i64 { hyg_check([format!("{:?}", entity), format!("{:?}", len), format!("{:?}", idx), format!("{:?}", version), format!("{:?}", slices), format!("{:?}", archetype), format!("{:?}", closure), format!("{:?}", found)]); qbody!(cb, Some(w), $e, $d, $r, $x); 7 })
         }
         pub fn $findb_d(w: &VW, k: EntityDirectAny, cb: Cb) -> Option<i64> {
-            ecs_find_borrow!(w, k, |$($params)*| -> i64 { qbody!(cb, Some(w), $e, $d, $r, $x); 7 })
+            let (entity, len, idx, version, slices, archetype, closure, found) = sentinels!();
+            ecs_find_borrow!(w, k, |$($params)*| -> i64 { hyg_check([format!("{:?}", entity), format!("{:?}", len), format!("{:?}", idx), format!("{:?}", version), format!("{:?}", slices), format!("{:?}", archetype), format!("{:?}", closure), format!("{:?}", found)]); qbody!(cb, Some(w), $e, $d, $r, $x); 7 })
         }
     };
 }
